@@ -1,0 +1,22 @@
+//go:build verif
+
+// Contracts for package processor (explorer backend), checked by /verif (govc). Comment-only file.
+package processor
+
+//@ func verifyVAA(v *vaa.VAA, addresses []ethCommon.Address) (err error)
+//@   props C19
+//@   requires vaa.wfVAA(v)
+//@   ensures [accept-iff] err == nil <==> addresses != nil && len(v.Signatures) >= 1 && len(v.Signatures) >= 2*len(addresses)/3 + 1 && vaa.specVerify(v, addresses)
+//@   modifies fresh lib:bytes.Buffer.b
+//@   nopanic
+
+// Push: something is queued only for a VAA verified against the set whose index it carries.
+//@ func (p *vaaGossipConsumer) Push(ctx context.Context, v *vaa.VAA, serializedVaa []byte) (err error)
+//@   props C19
+//@   requires p != nil && p.guardianSets != nil && guardiansets.indexed(p.guardianSets) && p.deduplicator != nil && vaa.wfVAA(v)
+//@   ensures [queued-at-most-once] nsent(p.messageQueue) <= old(nsent(p.messageQueue)) + 1
+//@   ensures [not-seen-when-queue-failed] err != nil ==> ghostCount("cache.Set") == old(ghostCount("cache.Set"))
+//@   modifies *
+//@   nonblocking
+//@   replay-in github.com/alephium/wormhole-fork/explorer-backend/guardiansets explorer_guardiansets_range.go.tmpl
+//@   at [p.messageQueue <- message]: assert [verified-against-named-set] guardianSet != nil && guardianSet.Index == v.GuardianSetIndex && len(v.Signatures) >= 2*len(guardianSet.Keys)/3 + 1 && vaa.specVerify(v, guardianSet.Keys)
